@@ -304,6 +304,94 @@ def idx_dirty_probe(res):
         db.destroy()
 
 
+def leading_rows_probe(res):
+    """another transaction has an uncommitted delete (or relocating update) on the FIRST rows of the heap; a sequential scan, an index
+    range scan and an index point lookup by a second transaction must each either be aborted or still show the committed rows"""
+    fails = []
+    for shape, writer in (("delete of the first row", ["DELETE FROM lt WHERE a = 0;"]), ("delete of the first two rows", ["DELETE FROM lt WHERE a = 0;", "DELETE FROM lt WHERE a = 1;"]),
+                          ("relocating update of the first row", ["UPDATE lt SET c = '%s' WHERE a = 0;" % ("g" * 3000)]), ("delete of a middle row", ["DELETE FROM lt WHERE a = 2;"])):
+        db = DB(mem_kb=400)
+        try:
+            if not db.open().startswith("ok") or not db.sql("CREATE TABLE lt(a int, b int, c varchar(255));").startswith("ok"):
+                return [("open", "set-up failed")]
+            for a in range(4):
+                db.sql("INSERT INTO lt(a,b,c) VALUES (%d, %d, 'r%d');" % (a, 10 * a, a))
+            committed = "ok:" + ";".join("i:%d,i:%d" % (a, 10 * a) for a in range(4))
+            db.cmd("begin w")
+            if not all(db.cmd("tsql w " + s).startswith("ok") for s in writer):
+                continue
+            for path, sql, exp in (("sequential scan", "SELECT a,b FROM lt WHERE b >= 0 OR b >= 0;", committed), ("index range scan", "SELECT a,b FROM lt WHERE a >= 0 AND a <= 9;", committed),
+                                   ("index point lookup", "SELECT a,b FROM lt WHERE a = 0;", "ok:i:0,i:0")):
+                db.cmd("begin r")
+                got = db.cmd("tsql r " + sql)
+                got = canon_rows(got) if got.startswith("ok") else got
+                db.cmd("abort r" if got == "aborted" else "commit r")
+                res.evaluations += 1
+                res.note_case("leading rows %s / %s -> %s" % (shape, path, "aborted" if got == "aborted" else "answered"), True)
+                if got != "aborted" and got != exp:
+                    fails.append(("# session:\n" + "\n".join(db.log[-30:]), "writer holds an uncommitted %s; a reader's %s completes with %s although the committed rows are %s (it must see them or be aborted)" % (shape, path, got[:200], exp)))
+            db.cmd("abort w")
+        finally:
+            db.destroy()
+    return fails
+
+
+def two_table_txn_probe(res, rng):
+    """one transaction changes rows of TWO tables (deletes, key-changing updates, inserts) and commits or aborts; afterwards a second
+    transaction reads both tables through the index point path, the index range path and the sequential scan: every path must show
+    exactly the committed rows (tables with unique skip-list and with ordinary skip-list indexes)"""
+    fails = []
+    for kind in "us":
+        db = DB(mem_kb=400)
+        try:
+            if not db.open().startswith("ok"):
+                return [("open", "database does not start")]
+            rows = {}
+            for tn in ("ta", "tb"):
+                db.cmd("mktable %s a:i:%s,b:i:n" % (tn, kind))
+                rows[tn] = {a: a * (100 if tn == "ta" else 1000) for a in range(1, 7)}
+                for a, b in rows[tn].items():
+                    db.sql("INSERT INTO %s(a,b) VALUES (%d, %d);" % (tn, a, b))
+            def check(what, log):
+                for tn in ("ta", "tb"):
+                    want = sorted(rows[tn].items())
+                    exp = "ok:" + ";".join(sorted("i:%d,i:%d" % r for r in want))
+                    for path, sql in (("sequential scan", "SELECT a,b FROM %s WHERE b >= 0 OR b >= 0;" % tn), ("index range scan", "SELECT a,b FROM %s WHERE a >= 1 AND a <= 60;" % tn)):
+                        got = canon_rows(db.sql(sql))
+                        res.evaluations += 1
+                        if got != exp:
+                            fails.append(("# %s index; session:\n%s" % ({"u": "unique skip-list", "s": "skip-list"}[kind], "\n".join(db.log[-40:])), "%s: %s of %s returns %s, committed rows %s" % (what, path, tn, got[:200], exp[:200]))); return False
+                    for a in list(range(1, 8)) + [50, 51]:
+                        got = canon_rows(db.sql("SELECT b FROM %s WHERE a = %d;" % (tn, a)))
+                        e1 = "ok:" + ("i:%d" % rows[tn][a] if a in rows[tn] else "")
+                        res.evaluations += 1
+                        if got != e1:
+                            fails.append(("# %s index; session:\n%s" % ({"u": "unique skip-list", "s": "skip-list"}[kind], "\n".join(db.log[-40:])), "%s: index point lookup %s.a = %d returns %s, committed data %s" % (what, tn, a, got[:100], e1))); return False
+                return True
+            for rnd in range(4):
+                commit = rnd != 2
+                new = {tn: dict(rows[tn]) for tn in rows}
+                db.cmd("begin w")
+                stmts = []
+                da, dbk = rng.sample(sorted(rows["ta"]), 1)[0], rng.sample(sorted(rows["tb"]), 1)[0]
+                if rnd % 2 == 0:
+                    stmts = [("ta", "DELETE FROM ta WHERE a = %d;" % da), ("tb", "DELETE FROM tb WHERE a = %d;" % dbk)]
+                    new["ta"].pop(da); new["tb"].pop(dbk)
+                else:
+                    stmts = [("ta", "UPDATE ta SET a = %d WHERE a = %d;" % (50 + rnd, da)), ("tb", "DELETE FROM tb WHERE a = %d;" % dbk), ("ta", "DELETE FROM ta WHERE a = %d;" % (50 + rnd))]
+                    new["ta"].pop(da); new["tb"].pop(dbk)
+                ok = all(db.cmd("tsql w " + s).startswith("ok") for _, s in stmts)
+                db.cmd("commit w" if commit and ok else "abort w")
+                if commit and ok:
+                    rows = new
+                res.note_case("two-table txn %s %s %s" % (kind, [s for _, s in stmts], commit), True)
+                if not check("after a transaction on two tables (%s) that %s" % ("; ".join(s for _, s in stmts), "committed" if commit and ok else "was aborted"), db.log):
+                    break
+        finally:
+            db.destroy()
+    return fails
+
+
 def run(res, replay=None, mode="mixed", prop="C04"):
     res.rule = ("random programs of 2-3 transactions x 1-3 statements over a 4-row table with a skip-list index on every column (point / range / sequential / primary-key reads, inserts, deletes, "
                 "key-changing updates, growing updates, commit or abort); EVERY statement-granularity interleaving of each program is executed with explicit transaction handles on one goroutine; "
@@ -317,6 +405,10 @@ def run(res, replay=None, mode="mixed", prop="C04"):
         return
     rng = random.Random(res.seed)
     idx_dirty_probe(res)
+    if prop == "C04":
+        for d, w in leading_rows_probe(res) + two_table_txn_probe(res, random.Random(res.seed + 44)):
+            if len(res.oracle_failures) < 5:
+                res.oracle_failures.append((d, w))
     if prop == "C04":
         # correspondence of the row-level engine model (Model/Engine.v, theorems of Props/C04.v) with the engine
         import enginecorr
